@@ -29,7 +29,7 @@ class Req:
     def __init__(self, r, kind=None, last=False):
         self.kind = kind or r.choice(["echo", "echo", "noread", "readk", "early", "swallow", "p", "notfound", "close", "err", "errint", "errclose", "hookdrop", "hookdropclose", "bigr", "reqclose", "reqnoclose",
                                       "closeempty", "closer", "hookdropclosesend", "silent", "errkind",
-                                      "gecho", "cont", "crlfpre", "hookstrip", "bigchunk"])
+                                      "gecho", "cont", "crlfpre", "hookstrip", "bigchunk", "closerep"])
         k = self.kind
         self.body = b""
         self.framing = None
@@ -75,6 +75,9 @@ class Req:
             path = b"/bigr/%d" % self.n
         elif k == "closeempty":
             path = b"/closeempty/" + r.choice([b"ok", b"send", b"send0", b"okr", b"sendr"])
+        elif k == "closerep":
+            self.how = r.choice([b"toclose", b"tokeep", b"twice", b"readd"])
+            path = b"/closerep/" + self.how
         elif k == "closer":
             self.n = r.choice([0, 1, 100, 2048, 8191, 8192, 20000])
             path = b"/closer/%d" % self.n
@@ -138,6 +141,9 @@ class Req:
         if k == "hookdrop": return (405, 0, b""), False
         if k in ("hookdropclose", "hookdropclosesend"): return (405, 1, b""), True
         if k == "closeempty": return (200, 1, b""), True
+        if k == "closerep":
+            c_ = self.how in (b"toclose", b"readd")      # what a fresh evaluation of the edited header set says
+            return (200, 1 if c_ else 0, b"rep"), c_
         if k == "closer": return (200, 1, b"x" * self.n), True
         if k == "reqclose":
             return ((200, 0, self.body) if self.has_body else (200, 0, b"7,8")), True
